@@ -314,6 +314,102 @@ def constructor_model(rep: report.Report) -> None:
     c01.constructor_model_check(rep)
 
 
+DEFINE_REPLAY = """
+from measured import Dimension, Length, Time, Number
+a, b = {a}, {b}
+D = Length**a * Time**b                      # a derived dimension known before the definition
+n = len(Length.exponents)
+New = Dimension.define(name='c02 fresh dimension', symbol='c02fd')
+print('exponents before/after:', n, len(Length.exponents), len(D.exponents), len(New.exponents))
+bad = []
+if not (Length**a * Time**b is D): bad.append('Length**a * Time**b is no longer the object it was')
+if not (Dimension(D.exponents) is D): bad.append('the table no longer maps D.exponents to D')
+if not (D * Number is D and D / D is Number): bad.append('neutral / inverse law')
+if len(D.exponents) != n + 1 or len(New.exponents) != n + 1: bad.append('exponent vectors of unequal length')
+if not ((New * D) / D is New and (New**2).root(2) is New): bad.append('laws over the fresh dimension')
+if bad:
+    print('REPRODUCED:', bad); sys.exit(1)
+sys.exit(0)
+"""
+
+
+def define_step(rep: report.Report) -> None:
+    """One step of the real Dimension.define from an arbitrary table: n fundamental dimensions
+    (unit vectors), Number, and two derived dimensions with symbolic exponent vectors.  After
+    the step every earlier object is still the one its (resized) exponents are mapped to, and
+    the real operators still land on it."""
+    import measured
+    from measured import Dimension
+
+    P = symnum.Prover(20000)
+    a, b, c, d, p_, q_ = (z3.Int(x) for x in ("da", "db", "dc", "dd", "dp", "dq"))
+    n = 3
+
+    def fn() -> Any:
+        # representation invariant of the table (what define itself establishes): with n
+        # fundamental dimensions every exponent vector has n + 1 entries, the last one zero
+        number = im.shadow_dimension([0, 0, 0, 0])
+        f1 = im.shadow_dimension([0, 1, 0, 0])
+        f2 = im.shadow_dimension([0, 0, 1, 0])
+        D = im.shadow_dimension([0, SInt(a), SInt(b), 0])
+        E = im.shadow_dimension([0, SInt(c), SInt(d), 0])
+        pre = [number, f1, f2, D, E]
+        table = im.AssocTable([(x.exponents, x) for x in pre])
+        saved = {k: Dimension.__dict__[k] for k in ("_known", "_fundamental", "_by_name")}
+        Dimension._known, Dimension._fundamental, Dimension._by_name = table, [number, f1, f2], {}
+        try:
+            old = [x.exponents for x in pre]
+            new = Dimension.define("c02-new", "c02n")
+            entries = len(table)
+            prod = Dimension._multiply.__wrapped__(f1 ** SInt(p_), f2 ** SInt(q_))
+            return {"pre": pre, "old": old, "new": new, "prod": prod, "D": D,
+                    "lookups": [table.get(x.exponents) for x in pre],
+                    "fundamental": list(Dimension._fundamental), "entries": entries}
+        finally:
+            for k, v in saved.items():
+                setattr(Dimension, k, v)
+
+    distinct = [z3.Or(a != c, b != d)] + [z3.Or(x != u, y != v) for x, y in ((a, b), (c, d))
+                                           for u, v in ((0, 0), (1, 0), (0, 1))]
+    with symnum.Shims():
+        ex = explore(fn, assumptions=distinct + [p_ == a, q_ == b], max_paths=400)
+    rep.merge_stats(queries=ex.queries, solver_s=ex.solver_s, paths=len(ex.paths))
+    rep.coverage["define_step_paths"] = len(ex.paths)
+    T = symnum.term
+    for i, p in enumerate(ex.paths):
+        key = ("define", i)
+        if p.exc is not None:
+            rep.ob("sat", f"define-step#p{i}: raises {p.outcome}", key)
+            rep.violation("C02:define:raises", f"Dimension.define raises {p.outcome} from a valid table",
+                          families.REPLAY_IMPORTS + DEFINE_REPLAY.format(a=2, b=-1))
+            continue
+        r = p.result
+        goals = {
+            "resized": z3.And(*[z3.BoolVal(len(x.exponents) == n + 2) for x in r["pre"]],
+                              *[z3.And(*[T(u) == T(v) for u, v in zip(x.exponents, o + (0,))])
+                                for x, o in zip(r["pre"], r["old"]) if len(x.exponents) == n + 2]),
+            "still-mapped": z3.BoolVal(all(l is x for l, x in zip(r["lookups"], r["pre"]))),
+            "fresh-is-unit-vector": z3.BoolVal(
+                len(r["new"].exponents) == n + 2 and len(r["fundamental"]) == n + 1 and
+                r["fundamental"][-1] is r["new"] and r["entries"] == len(r["pre"]) + 1) if True else None,
+            "operators-land-on-the-same-object": z3.BoolVal(r["prod"] is r["D"]),
+        }
+        if len(r["new"].exponents) == n + 2:
+            goals["fresh-is-unit-vector"] = z3.And(goals["fresh-is-unit-vector"],
+                                                   *[T(e) == (1 if j == n else 0)
+                                                     for j, e in enumerate(r["new"].exponents)])
+        for g, goal in goals.items():
+            st, mdl = P.prove(p.cond, goal)
+            rep.ob("unsat" if st == "unsat" else ("unknown" if st == "unknown" else "sat"),
+                   f"define-step#p{i}:{g}", key + (g,))
+            if st == "sat":
+                sm = small_model(p.cond, z3.Not(goal)) or {}
+                av, bv = sm.get("da", 2), sm.get("db", -1)
+                rep.violation(f"C02:define:{g}", f"after Dimension.define, {g} fails for the derived dimension "
+                              f"F1**{av} * F2**{bv}", families.REPLAY_IMPORTS + DEFINE_REPLAY.format(a=av, b=bv))
+    rep.functions.add("measured.Dimension.define")
+
+
 def tasks_for(tier: str) -> List[Tuple]:
     tasks: List[Tuple] = []
     sets = BASE_SETS if tier == "thorough" else BASE_SETS[:2]
@@ -345,6 +441,7 @@ def main(tier: str, selftest_cases: int = 0) -> int:
     families.boot()
     N = im.ndim()
     constructor_model(rep)
+    define_step(rep)
     tasks = families.shuffled(tasks_for(tier), rep.seed)
     results = par.run("props.c02", "worker", tasks)
     work.merge(rep, results)
